@@ -2,6 +2,7 @@ package main
 
 import (
 	"fmt"
+	"go/types"
 	"os"
 
 	"golang.org/x/tools/go/ssa"
@@ -113,6 +114,42 @@ func init() {
 			}
 		}
 		fmt.Println("SCCs:", lo.sccs())
+		os.Exit(0)
+	}
+}
+
+func init() {
+	if len(os.Args) > 1 && os.Args[1] == "bounds" {
+		p, err := LoadProg("/repo", "", "", nil)
+		if err != nil {
+			fmt.Println(err)
+			os.Exit(1)
+		}
+		for _, fn := range p.Funcs(os.Args[2:]...) {
+			instrs(fn, func(_ *ssa.BasicBlock, _ int, in ssa.Instruction) {
+				switch x := in.(type) {
+				case *ssa.Slice:
+					nc := false
+					for _, b := range []ssa.Value{x.Low, x.High, x.Max} {
+						if b != nil {
+							if _, ok := constInt(b); !ok {
+								nc = true
+							}
+						}
+					}
+					if nc {
+						fmt.Printf("%s %s: slice %s\n", p.Pos(x.Pos()), fnName(fn), describe(x))
+					}
+				case *ssa.IndexAddr:
+					if _, ok := constInt(x.Index); !ok {
+						if _, isArr := x.X.Type().Underlying().(*types.Pointer); isArr {
+							return
+						}
+						fmt.Printf("%s %s: index %s[%s]\n", p.Pos(x.Pos()), fnName(fn), describe(x.X), describe(x.Index))
+					}
+				}
+			})
+		}
 		os.Exit(0)
 	}
 }
